@@ -11,12 +11,14 @@ use std::io::BufRead;
 
 fn real_hash(tag: i64, idx: i64, size: u64) -> u64 {
     let shift = size.trailing_zeros();
-    let high: u64 = match tag {
+    // tag 0 -> hash bits all zero above the index, tag 1 -> only bit 32 set (differs from tag 0 in the upper half
+    // of the word only), tag 2 -> every bit above the index set
+    let base: u64 = match tag {
         0 => 0,
-        1 => 1,
-        _ => u64::MAX >> shift,
+        1 => 1u64 << 32,
+        _ => (u64::MAX >> shift) << shift,
     };
-    (if shift == 0 { high } else { high << shift }) | idx as u64
+    base | idx as u64
 }
 
 fn pred(k: &str, x: i64) -> Box<dyn Fn(i64) -> bool> {
